@@ -72,5 +72,36 @@ Definition deye (ns : list nat) : dense :=
   mkD (ns ++ ns) (fun idx => fold_right (fun ij acc => delta (fst ij) (snd ij) * acc) 1
                                (combine (firstn (length ns) idx) (skipn (length ns) idx))).
 
+(* ---- reductions ---- *)
+Definition memb (i : nat) (l : list nat) : bool := existsb (Nat.eqb i) l.
+(* sum over the modes listed in index; the result is indexed by the remaining modes, in order *)
+Fixpoint dsum_rec (i : nat) (ns index : list nat) (f : list nat -> R) : list nat -> R :=
+  match ns with
+  | [] => fun _ => f []
+  | n :: nt =>
+      if memb i index
+      then fun idx' => sum_n n (fun j => dsum_rec (S i) nt index (fun t => f (j :: t)) idx')
+      else fun idx' => match idx' with
+                       | k :: kt => dsum_rec (S i) nt index (fun t => f (k :: t)) kt
+                       | [] => 0
+                       end
+  end.
+Fixpoint keep_pos {A} (i : nat) (l : list A) (index : list nat) : list A :=
+  match l with [] => [] | a :: t => (if memb i index then [] else [a]) ++ keep_pos (S i) t index end.
+Fixpoint take_pos {A} (i : nat) (l : list A) (index : list nat) : list A :=
+  match l with [] => [] | a :: t => (if memb i index then [a] else []) ++ take_pos (S i) t index end.
+Definition dsum_modes (a : dense) (index : list nat) : dense :=
+  mkD (keep_pos 0 (dshape a) index) (dsum_rec 0 (dshape a) index (dget a)).
+Definition dsum_all (a : dense) : dense := mkD [] (fun _ => sum_idx (dshape a) (dget a)).
+Definition ddot (a b : dense) : dense :=
+  mkD [] (fun _ => sum_idx (dshape a) (fun idx => dget a idx * rconj (dget b idx))).
+(* contraction of the modes `axis` of a with all modes of b (conjugated) *)
+Definition ddot_axis (a b : dense) (axis : list nat) : dense :=
+  dsum_modes (mkD (dshape a) (fun idx => dget a idx * rconj (dget b (take_pos 0 idx axis)))) axis.
+(* x^H A y with A of shape M x N *)
+Definition dbilinear (x A y : dense) : dense :=
+  mkD [] (fun _ => sum_idx (dshape x) (fun is_ => sum_idx (dshape y) (fun js =>
+                     rconj (dget x is_) * dget A (is_ ++ js) * dget y js))).
+
 End Dense.
 Arguments dense R : clear implicits.
